@@ -82,6 +82,8 @@ def repr_(ex, x, node=None):
         if ex.is_none(x):
             return 'None'
         return SymVal('str', z3.String(f'repr({x.label})'))
+    if isinstance(x, ExcVal):
+        return SymVal('str', z3.String(ex.fresh_name(f'repr({x.cls.__name__})')))          # BaseException.__repr__ never raises
     if is_abstract(x) or deep_abstract(x):
         raise Unsupported(f'repr() of {x!r}')
     return repr(x)
